@@ -120,10 +120,10 @@ def check(mod, run, a):
     # ---- vacuity: requires satisfiable, every reported path feasible or explicitly unreachable
     vac_tasks = []
     for (cfgname, c, res, eng) in run.contracts:
-        t = prove.Task(None, 'requires-sat:%s' % c.name, [g for g in res.get('pre_pc', []) if not isinstance(g, symex.QForall)], z3.BoolVal(False), [('z3-5.1.0', 10), ('cvc5-1.0.3', 10)])
+        t = prove.Task(None, 'requires-sat:%s' % c.name, [g for g in res.get('pre_pc', []) if not isinstance(g, SP.QForall)], z3.BoolVal(False), [('z3-5.1.0', 10), ('cvc5-1.0.3', 10)])
         t.kind = 'requires'; t.c = c; t.cfg = cfgname; vac_tasks.append(t)
         for i, (s, outcome, ret) in enumerate(res.get('paths', [])):
-            t = prove.Task(None, 'path-feasible:%s#%d' % (c.name, i), [g for g in s.pc if not isinstance(g, symex.QForall)], z3.BoolVal(False), [('z3-5.1.0', 5), ('cvc5-1.0.3', 5)])
+            t = prove.Task(None, 'path-feasible:%s#%d' % (c.name, i), [g for g in s.pc if not isinstance(g, SP.QForall)], z3.BoolVal(False), [('z3-5.1.0', 5), ('cvc5-1.0.3', 5)])
             t.kind = 'path'; t.c = c; t.cfg = cfgname; vac_tasks.append(t)
     prove.run_tasks(vac_tasks)
     vac = {'requires_sat': 0, 'requires_total': 0, 'paths_feasible': 0, 'paths_unknown': 0, 'paths_infeasible': 0}
